@@ -76,6 +76,21 @@ pub fn c12(tier: &str, seed: u64) {
           continue;
         }
       };
+      // a server holding the SAME key state (export -> bincode -> import into a server that
+      // already had its own identity and tags) must give the same output: the output depends only
+      // on (server key, tag, input)
+      {
+        use ppoprf::ppoprf::ServerKeyState;
+        let bytes = bincode::serialize(&server.get_private_key()).expect("serialize key state");
+        let st: ServerKeyState = bincode::deserialize(&bytes).expect("deserialize key state");
+        let mut other = Server::new(mds.clone()).expect("Server::new");
+        other.set_private_key(st);
+        match other.eval(&hx, md, false) {
+          Ok(ev) if ev.output.as_bytes().to_vec() == direct => {}
+          Ok(ev) => fail("same_key_state_different_output", &[("input", hex(&input)), ("md", md.to_string()), ("mds", hex(&mds)), ("exporter", hex(&direct)), ("importer", hex(ev.output.as_bytes()))]),
+          Err(e) => fail("same_key_state_different_output", &[("input", hex(&input)), ("md", md.to_string()), ("mds", hex(&mds)), ("exporter", hex(&direct)), ("importer", format!("err:{}", err_kind(&e)))]),
+        }
+      }
       for (i, r) in runs.iter().enumerate() {
         // every run recovers the same H(x)
         let hxi = Client::unblind(&Point::from(&r.0[..]), &CurveScalar::from(r.1));
